@@ -35,6 +35,7 @@ pub async fn register(ctx: &SessionContext, case: &Value, opts: &ExecOpts) -> Re
     let source = case["cfg"]["source"].as_str().unwrap_or("mem").to_string();
     for t in case["tables"].as_array().unwrap() {
         let (schema, parts) = table_partitions(t, opts);
+        let (schema, parts) = if case["cfg"]["wide"].as_bool().unwrap_or(false) { widen(schema, parts)? } else { (schema, parts) };
         let sort = t.get("sort").and_then(|s| s.as_array()).cloned().unwrap_or_default();
         if source.starts_with("parquet") {
             // one Parquet file per table partition under <dir>/<run>/<table>/, registered as a listing table
@@ -68,6 +69,76 @@ pub async fn register(ctx: &SessionContext, case: &Value, opts: &ExecOpts) -> Re
                 o = o.file_sort_order(vec![order]);
             }
             ctx.register_parquet(t["name"].as_str().unwrap(), &dir, o).await.map_err(|e| e.to_string())?;
+            continue;
+        }
+        let sort_exprs = |schema: &arrow::datatypes::SchemaRef| -> Vec<SortExpr> {
+            sort.iter()
+                .map(|k| col(schema.field(k["i"].as_u64().unwrap() as usize - 1).name().clone()).sort(k["asc"].as_bool().unwrap(), k["nf"].as_bool().unwrap()))
+                .collect()
+        };
+        if source == "csv" || source == "json" || source == "arrow" {
+            // one file per table partition, registered as a listing table with the explicit schema
+            let base = util::arg("--dir").ok_or("file source needs --dir")?;
+            let run: String = case["id"].as_str().unwrap().chars().map(|c| if c.is_ascii_alphanumeric() { c } else { '_' }).collect();
+            let dir = format!("{base}/{run}/{}", t["name"].as_str().unwrap());
+            std::fs::create_dir_all(&dir).map_err(|e| e.to_string())?;
+            for (i, p) in parts.iter().enumerate() {
+                let f = std::fs::File::create(format!("{dir}/part-{i}.{source}")).map_err(|e| e.to_string())?;
+                match source.as_str() {
+                    "csv" => {
+                        let mut w = arrow::csv::WriterBuilder::new().with_header(true).build(f);
+                        for b in p {
+                            w.write(b).map_err(|e| e.to_string())?;
+                        }
+                    }
+                    "json" => {
+                        let mut w = arrow::json::LineDelimitedWriter::new(f);
+                        for b in p {
+                            w.write(b).map_err(|e| e.to_string())?;
+                        }
+                        w.finish().map_err(|e| e.to_string())?;
+                    }
+                    _ => {
+                        let mut w = arrow::ipc::writer::FileWriter::try_new(f, &schema).map_err(|e| e.to_string())?;
+                        for b in p {
+                            w.write(b).map_err(|e| e.to_string())?;
+                        }
+                        w.finish().map_err(|e| e.to_string())?;
+                    }
+                }
+            }
+            let name = t["name"].as_str().unwrap();
+            let order = if sort.is_empty() { vec![] } else { vec![sort_exprs(&schema)] };
+            match source.as_str() {
+                "csv" => {
+                    let o = CsvReadOptions::new().schema(&schema).has_header(true).file_extension(".csv").file_sort_order(order);
+                    ctx.register_csv(name, &dir, o).await.map_err(|e| e.to_string())?;
+                }
+                "json" => {
+                    let o = JsonReadOptions::default().schema(&schema).file_extension(".json").file_sort_order(order);
+                    ctx.register_json(name, &dir, o).await.map_err(|e| e.to_string())?;
+                }
+                _ => {
+                    let o = datafusion::datasource::file_format::options::ArrowReadOptions::default().schema(&schema);
+                    ctx.register_arrow(name, &dir, o).await.map_err(|e| e.to_string())?;
+                }
+            }
+            continue;
+        }
+        if source == "streaming" {
+            // a StreamingTable DECLARED infinite (so the planner takes its streaming paths: PartialSortExec,
+            // SymmetricHashJoinExec, BoundedWindowAggExec input-order modes ...) over partition streams that do end
+            use datafusion::catalog::streaming::StreamingTable;
+            use datafusion::physical_plan::streaming::PartitionStream;
+            let ps: Vec<Arc<dyn PartitionStream>> = parts
+                .iter()
+                .map(|p| Arc::new(FinitePartition { schema: Arc::clone(&schema), batches: p.clone() }) as Arc<dyn PartitionStream>)
+                .collect();
+            let mut st = StreamingTable::try_new(Arc::clone(&schema), ps).map_err(|e| e.to_string())?.with_infinite_table(true);
+            if !sort.is_empty() {
+                st = st.with_sort_order(sort_exprs(&schema));
+            }
+            ctx.register_table(t["name"].as_str().unwrap(), Arc::new(st)).map_err(|e| e.to_string())?;
             continue;
         }
         // (VCONTRACT_LIE: development-only switch used to demonstrate that a false declaration is detected)
@@ -167,6 +238,69 @@ async fn analyze_run(lp: &datafusion::logical_expr::LogicalPlan, state: &datafus
     Ok(res)
 }
 
+/// Extra columns derived from the first (BIGINT) column in other physical types, so that file statistics, schema
+/// conformance and type-specialised operator paths see Int32 / Float64 / Date32 / Timestamp / Decimal128 / LargeUtf8 / Binary.
+fn widen(
+    schema: arrow::datatypes::SchemaRef,
+    parts: Vec<Vec<arrow::record_batch::RecordBatch>>,
+) -> Result<(arrow::datatypes::SchemaRef, Vec<Vec<arrow::record_batch::RecordBatch>>), String> {
+    use arrow::datatypes::{DataType, Field, TimeUnit};
+    let targets = [
+        ("w_i32", DataType::Int32),
+        ("w_f64", DataType::Float64),
+        ("w_date", DataType::Date32),
+        ("w_ts", DataType::Timestamp(TimeUnit::Microsecond, None)),
+        ("w_dec", DataType::Decimal128(10, 2)),
+        ("w_lstr", DataType::LargeUtf8),
+        ("w_bin", DataType::Binary),
+    ];
+    let mut fields: Vec<Field> = schema.fields().iter().map(|f| f.as_ref().clone()).collect();
+    for (n, t) in &targets {
+        fields.push(Field::new(*n, t.clone(), true));
+    }
+    let wide = Arc::new(arrow::datatypes::Schema::new(fields));
+    let mut out = vec![];
+    for p in parts {
+        let mut bs = vec![];
+        for b in p {
+            let mut cols = b.columns().to_vec();
+            let base = Arc::clone(b.column(0));
+            for (_, t) in &targets {
+                let c = match t {
+                    DataType::LargeUtf8 | DataType::Binary => {
+                        let s = arrow::compute::cast(&base, &DataType::Utf8).map_err(|e| e.to_string())?;
+                        arrow::compute::cast(&s, t).map_err(|e| e.to_string())?
+                    }
+                    DataType::Date32 => {
+                        let i = arrow::compute::cast(&base, &DataType::Int32).map_err(|e| e.to_string())?;
+                        arrow::compute::cast(&i, t).map_err(|e| e.to_string())?
+                    }
+                    _ => arrow::compute::cast(&base, t).map_err(|e| e.to_string())?,
+                };
+                cols.push(c);
+            }
+            bs.push(arrow::record_batch::RecordBatch::try_new(Arc::clone(&wide), cols).map_err(|e| e.to_string())?);
+        }
+        out.push(bs);
+    }
+    Ok((wide, out))
+}
+
+#[derive(Debug)]
+struct FinitePartition {
+    schema: arrow::datatypes::SchemaRef,
+    batches: Vec<arrow::record_batch::RecordBatch>,
+}
+
+impl datafusion::physical_plan::streaming::PartitionStream for FinitePartition {
+    fn schema(&self) -> &arrow::datatypes::SchemaRef {
+        &self.schema
+    }
+    fn execute(&self, _ctx: Arc<datafusion::execution::TaskContext>) -> datafusion::execution::SendableRecordBatchStream {
+        Box::pin(datafusion::physical_plan::memory::MemoryStream::try_new(self.batches.clone(), Arc::clone(&self.schema), None).unwrap())
+    }
+}
+
 fn is_oom(e: &str) -> bool {
     e.contains("Resources exhausted") || e.contains("Not enough memory")
 }
@@ -189,7 +323,7 @@ fn type_token(t: &arrow::datatypes::DataType) -> String {
 
 async fn run_case(case: Value) -> Value {
     let v = run_case_inner(&case).await;
-    if case["cfg"]["source"].as_str().unwrap_or("mem").starts_with("parquet") {
+    if matches!(case["cfg"]["source"].as_str().unwrap_or("mem"), "parquet" | "parquet_page" | "parquet_nostats" | "csv" | "json" | "arrow") {
         if let Some(base) = util::arg("--dir") {
             let run: String = case["id"].as_str().unwrap().chars().map(|c| if c.is_ascii_alphanumeric() { c } else { '_' }).collect();
             let _ = std::fs::remove_dir_all(format!("{base}/{run}"));
@@ -287,13 +421,27 @@ async fn run_case_inner(case: &Value) -> Value {
         }
     }
     let mut njs: Vec<Value> = nds.iter().map(facts::node_json).collect();
+    if case["cfg"]["norows"].as_bool().unwrap_or(false) {
+        // large-input runs (spilling): keep the batch shapes and counts, drop the row values from the log
+        for j in njs.iter_mut() {
+            if let Some(ss) = j["streams"].as_array_mut() {
+                for s in ss {
+                    if let Some(bs) = s["batches"].as_array_mut() {
+                        for b in bs {
+                            b["rows"] = json!([]);
+                        }
+                    }
+                }
+            }
+        }
+    }
     for (j, d) in njs.iter_mut().zip(details) {
         j["detail"] = json!(d);
     }
     json!({"id": id, "cfg": cfgname, "status": "ok", "inert": inert, "has_fetch": any_fetch, "plan": plan_text,
            "logical": logical.iter().map(|(t, n)| json!({"t": t, "n": n})).collect::<Vec<_>>(),
            "root": root_schema.iter().map(|(t, n)| json!({"t": t, "n": n})).collect::<Vec<_>>(),
-           "nodes": njs, "result": base_rows, "rust_bad": rb, "analyze": analyze})
+           "nodes": njs, "result": if case["cfg"]["norows"].as_bool().unwrap_or(false) { vec![] } else { base_rows }, "rust_bad": rb, "analyze": analyze})
 }
 
 pub fn main() {
